@@ -36,7 +36,7 @@ def digest_obj(o, h=None, depth=0):
         h_bytes(h, np.ascontiguousarray(o).tobytes())
     elif isinstance(o, pd.Series):
         h_bytes(h, str(o.dtype).encode())
-        h_bytes(h, repr(list(o.index)).encode())
+        h_bytes(h, repr((list(o.index), o.index.name, o.name)).encode())
         h_bytes(h, repr(o.tolist()).encode())
     elif isinstance(o, pd.DataFrame):
         h_bytes(h, repr(list(o.columns)).encode())
@@ -84,6 +84,8 @@ def make_pop(name, date, as_dict):
             q.update({"alter": 1 + 2 * j, "geburtsjahr": 2023 - (1 + 2 * j), "kind": True, "bruttolohn_m": 0.0, "in_ausbildung": (1 + 2 * j) >= 6, "p_id_kindergeld_empf": P[len(structs[0])]["p_id"]})
     df = gs.build_population(P, "2023-01-01")
     if as_dict:
+        df = df.copy()
+        df.index = pd.Index([101 + 3 * i for i in range(len(df))], name="person")     # the caller's Series carry their own labels
         d = {c: df[c].copy() for c in df.columns}
         d["alter"] = d["alter"].astype(float)          # needs (lossless) conversion
         d["kind"] = d["kind"].astype(np.int64)
